@@ -447,7 +447,7 @@ func runHistory(h HistSpec) {
 		}
 		// five wake-ups without a fragment of the group: the client abandons it (markSweepFrags).  When
 		// the sender stalled this is the time-out working as designed and the property (which speaks
-		// of arrival orders, not of time) demands nothing; at the protocol's own cadence it means five
+		// of arrival orders, not of time) demands nothing; at the protocol's own cadence it means four
 		// foreign transmissions were interleaved between two fragments: that loss is the property's.
 		timedOut := len(st.frs) > 1 && maxIdle[i] >= fragMaxMisses
 		nf := len(fails)
@@ -560,7 +560,7 @@ func runHistory(h HistSpec) {
 		case notPos0:
 			key = "first-arrival-not-pos0"
 		case idleFive && !otherFail:
-			key = "five-foreign-transmissions-between-fragments"
+			key = "idle-five-wakeups-at-protocol-cadence"
 		default:
 			key = h.Dir + "/" + h.Order
 			if emptyFrag {
@@ -727,16 +727,17 @@ func main() {
 		h.Sends[0].Wait, h.Sends[0].Tags, h.NoModel = true, 0, true
 		hist(h)
 	}
-	{ // known finding: the protocol's cadence (one wake-up per exchange), five foreign transmissions
-		// (fragments of group B, one per exchange) between two fragments of group A: the client abandons A
+	{ // known finding: the protocol's cadence (one wake-up before every exchange), FOUR foreign transmissions
+		// (fragments of group B, one per exchange) between two fragments of group A: the fifth wake-up,
+		// the one that would fetch A1, removes A
 		h := HistSpec{Class: "corpus-finding", Dir: "s2c", Order: "identity", Omit: -1,
-			Sends: []SendSpec{mkSend(rng, F+100), mkSend(rng, 5*F+100)},
-			Sched: [][2]int{{0, 0}, {-1, 0}, {1, 0}, {-1, 0}, {1, 1}, {-1, 0}, {1, 2}, {-1, 0}, {1, 3}, {-1, 0}, {1, 4}, {-1, 0}, {0, 1}, {-1, 0}, {1, 5}}}
-		hist(h)
-		// four foreign transmissions: both groups are delivered
-		h = HistSpec{Class: "corpus", Dir: "s2c", Order: "identity", Omit: -1,
 			Sends: []SendSpec{mkSend(rng, F+100), mkSend(rng, 4*F+100)},
 			Sched: [][2]int{{0, 0}, {-1, 0}, {1, 0}, {-1, 0}, {1, 1}, {-1, 0}, {1, 2}, {-1, 0}, {1, 3}, {-1, 0}, {0, 1}, {-1, 0}, {1, 4}}}
+		hist(h)
+		// three foreign transmissions: both groups are delivered
+		h = HistSpec{Class: "corpus", Dir: "s2c", Order: "identity", Omit: -1,
+			Sends: []SendSpec{mkSend(rng, F+100), mkSend(rng, 3*F+100)},
+			Sched: [][2]int{{0, 0}, {-1, 0}, {1, 0}, {-1, 0}, {1, 1}, {-1, 0}, {1, 2}, {-1, 0}, {0, 1}, {-1, 0}, {1, 3}}}
 		hist(h)
 		// a sender that stalls for five wake-ups: the group is abandoned and the late fragment is answered
 		// with SvDrop (the time-out; no demand of the property), four wake-ups are survived
